@@ -6,13 +6,20 @@ import shutil
 import sys
 
 ROOT = os.path.dirname(os.path.dirname(os.path.abspath(__file__)))
-for pid in sys.argv[1:]:
-    base = f"/tmp/mut/{pid}"
+args = sys.argv[1:]
+root = "/tmp/mut"
+tag = "m"
+if args and args[0].startswith("--root="):
+    root = args[0].split("=", 1)[1]
+    tag = "r2m"
+    args = args[1:]
+for pid in args:
+    base = f"{root}/{pid}"
     for d in sorted(os.listdir(base)):
         if not d.startswith("mutation_"):
             continue
         src = os.path.join(base, d)
-        name = f"{pid}-m{d.split('_')[1]}"
+        name = f"{pid}-{tag}{d.split('_')[1]}"
         dst = os.path.join(ROOT, "seeded", name)
         os.makedirs(dst, exist_ok=True)
         for f in os.listdir(src):
